@@ -41,6 +41,12 @@ GROUPS = {
         # _nema_current_unbalance: (max - mean) / mean   (np.max / np.mean per period are hand-modelled)
         dict(name="An_nema", file=ANA, qual="_nema_current_unbalance", only_used_args=True, expr_path="body[3].value",
              call_params={"np.max": ("mx", "num"), "np.mean": ("mean", "num")}),
+        # energy_cost: <prices . aggregate power> * (sim.period / 60)   (the dot product is hand-modelled)
+        dict(name="An_energy_cost", file=ANA, qual="energy_cost", only_used_args=True, expr_path="body[4].value",
+             types={"sim.period": "num"}, call_params={"np.array(energy_costs).dot": ("dot", "num")}),
+        # demand_charge: dc * max(aggregate power)
+        dict(name="An_demand_charge", file=ANA, qual="demand_charge", only_used_args=True, expr_path="body[4].value",
+             types={"dc": "num"}, call_params={"np.max": ("mx", "num")}),
         # datetimes_array: minutes offset of entry i  = sim.period * i
         dict(name="An_minutes", file=ANA, qual="datetimes_array",
              only_used_args=True, expr_path="body[3].value.args[0].elt.args[0].right.keywords[0].value",
